@@ -16,25 +16,23 @@ def LIMIT : Nat := 65536
 
 structure DS where
   objs : Array Vector
-  next : Nat
-  live : List Nat
+  heap : Heap
   plan : List Bool
+
+def DS.next (s : DS) : Nat := s.heap.next
+def DS.live (s : DS) : List Nat := s.heap.live
 
 def dinit : DS :=
   { objs := #[Vector.init 4 false false, Vector.init 4 false false,
               Vector.init 1 false false, Vector.init 1 false false,
               Vector.init 4 false false, Vector.init 4 false false],
-    next := 1, live := [], plan := [] }
+    heap := Heap.init, plan := [] }
 
 def DS.ans (s : DS) : Nat → Bool := fun bytes =>
   (match s.plan with | [] => true | p :: _ => p) && decide (bytes ≤ LIMIT)
 
-def applyEv (s : DS) : Ev → DS
-  | .rOk old new _ => { s with live := (s.live.erase old) ++ [new], next := max s.next (new + 1), plan := s.plan.tail }
-  | .rFail _ _ => { s with plan := s.plan.tail }
-  | .rFree old => { s with live := s.live.erase old, plan := s.plan.tail }
-  | .free id => { s with live := s.live.erase id }
-  | _ => s
+def applyEv (s : DS) (e : Ev) : DS :=
+  { s with heap := s.heap.apply e, plan := if e.isRequest then s.plan.tail else s.plan }
 
 def objIndex (n : String) : Option Nat :=
   match n with
